@@ -1,4 +1,5 @@
 import Vflow.Proofs.Producer
+import Vflow.Proofs.SaramaLoop
 import Vflow.Gen.ProducerFacts
 /-!
 # C14 — the producer delivers every message once, unmodified, newline-terminated, in order
@@ -24,6 +25,16 @@ script occurs; the theorems hold for all of them.
 The tie to the source is (A) the obligations on `Vflow.Gen.ProducerFacts` at the end of this file
 (regenerated from `producer/*.go` on every run) and (B) the `producer` correspondence
 (`producer/verif_rawsocket_test.go` against real sockets).
+
+The default backend, kafka (`producer/sarama.go`), has its own small model: `Vflow.Producer.runK lp sc ms`
+(`Model/SaramaLoop.lean`) interprets the *regenerated description* `Gen.saramaLoop` of the send loop of
+`KafkaSarama.inputMsg` against an arm script `sc` (which arm of the `select` the client library / the
+scheduler lets the loop take, one entry per `select` executed). The theorems `kafka_*` below quantify
+over **every** message list (of any type) and **every** script; they are about `Gen.saramaLoop`
+itself, so they are re-proved against the current source by every `lake build`. On the loop as it
+was before the F20 repair they are false (`f20_drop_counterexample`). Tie (B):
+`producer/verif_sarama_test.go` runs the real `inputMsg` against sarama's own mock producer and
+against a scripted `AsyncProducer` (correspondence kind `producerk`).
 -/
 namespace Vflow.C14
 open Vflow Vflow.Producer
@@ -48,7 +59,70 @@ theorem gen_nsq_payload : Gen.nsqPayload = .recvVar := by decide
 /-- nats: the payload is the received message itself -/
 theorem gen_nats_payload : Gen.natsPayload = .recvVar := by decide
 
-/-! ## The property theorems -/
+/-- kafka (sarama): the send loop is the repaired one, token for token: `msg, ok = <-mCh`,
+    `if !ok { break }`, then `offer: for { select { case Input() <- …: break offer;
+    case err := <-Errors(): log; *ec++ } }` and nothing else -/
+theorem gen_saramaLoop_expected : Gen.saramaLoop = expectedSaramaLoop := by decide
+
+/-- kafka (sarama): under Go's control flow (`armAfter`) the regenerated loop offers the message in
+    hand again after every error report, moves on only after `Input()` accepted it, and logs and
+    counts each error report once -/
+theorem gen_saramaLoop_retries : Gen.saramaLoop.retriesUntilAccepted :=
+  ⟨⟨_, rfl, rfl, rfl⟩, ⟨_, rfl, rfl, rfl⟩⟩
+
+/-! ## The property theorems: kafka (sarama) send loop -/
+
+/-- **C14 (kafka: every message is offered until accepted, once, in order)**: for every message list
+and every arm script, what the client library has accepted on `Input()` is exactly the first `k`
+handed-over messages, `k` the number of `select`s of the script in which the library accepts — no
+message is skipped, repeated or reordered, whatever the error reports in between; the loop never
+reaches an undefined state -/
+theorem kafka_offered_is_prefix {α : Type} (sc : List Arm) (ms : List α) :
+    (runK Gen.saramaLoop sc ms).offered = ms.take (inputArms sc) ∧
+    (runK Gen.saramaLoop sc ms).stuck = false :=
+  have h := runK_retrying Gen.saramaLoop gen_saramaLoop_retries sc ms
+  ⟨h.1, h.2.1⟩
+
+/-- **C14 (kafka: the sequence offered to the library = the sequence received)**: as soon as the
+library has accepted as many inputs as messages were handed over, it has been offered exactly those
+messages, each once, in the order they were handed over -/
+theorem kafka_offered_eq_received {α : Type} (sc : List Arm) (ms : List α)
+    (h : ms.length ≤ inputArms sc) :
+    (runK Gen.saramaLoop sc ms).offered = ms := by
+  rw [(kafka_offered_is_prefix sc ms).1, List.take_of_length_le h]
+
+/-- **C14 (kafka: error counter)**: `MQErrorCount` and the number of logged error reports both equal
+the number of error reports taken from `Errors()` in the `select`s the run executed; the run executes
+`select`s exactly until every message has been accepted (or the script ends) -/
+theorem kafka_counters_exact {α : Type} (sc : List Arm) (ms : List α) :
+    let r := runK Gen.saramaLoop sc ms
+    r.ec = errorArms (sc.take r.steps) ∧ r.logged = errorArms (sc.take r.steps) ∧
+    r.steps ≤ sc.length ∧ inputArms (sc.take r.steps) = min ms.length (inputArms sc) :=
+  have h := runK_retrying Gen.saramaLoop gen_saramaLoop_retries sc ms
+  ⟨h.2.2.2.1, h.2.2.2.2.1, h.2.2.1, h.2.2.2.2.2⟩
+
+/-- **F20**: on the loop as it was (`select` once per message, the error arm leaves it as well) the
+property is false — an error report taken while message 0 is in hand discards message 0: the library
+is offered message 1 only, although it accepts two inputs, and the run is not stuck -/
+theorem f20_drop_counterexample :
+    (runK saramaLoopBeforeF20 [.error, .input, .input] [0, 1]).offered = [1] ∧
+    (runK saramaLoopBeforeF20 [.error, .input, .input] [0, 1]).stuck = false ∧
+    (runK saramaLoopBeforeF20 [.error, .input, .input] [0, 1]).offered ≠ [0, 1].take (inputArms [.error, .input, .input]) := by
+  decide
+
+/-- non-vacuity: three messages, an error report while the second is in hand and two while the third
+is: all three are offered, in order, three errors counted and logged, six `select`s -/
+example :
+    runK Gen.saramaLoop [.input, .error, .input, .error, .error, .input, .error] [10, 20, 30] =
+      { offered := [10, 20, 30], ec := 3, logged := 3, steps := 6, stuck := false } := by
+  decide
+
+/-- fail closed: a loop the extractor could not read is given no meaning (`stuck`), so
+    `kafka_offered_is_prefix` cannot be proved about it -/
+example : (runK { recvFirst := true, offer := .unrecognised "x", extra := [] } [.input] [0]).stuck = true := by
+  decide
+
+/-! ## The property theorems: raw socket -/
 
 /-- **C14 (unmodified, newline-terminated, in order, no duplicates)**: every chunk the sink receives
 is `msg ++ "\n"` for the handed-over message with that index, byte for byte; the indices of the
